@@ -51,6 +51,33 @@ CLAIMED = {
     note=NOTE_COMMON + " MD5 is a parameter (hashlib's incremental law assumed).",
     technique="Lean 4 proof (case analysis, induction over blocks) + differential correspondence through the real CLI and check task",
     ref="§5 C03"),
+ "C04": dict(
+    text=("Lean theorems: an import registers something iff the path is under the root, not the root/marker, a regular non-symlink file "
+          "resolving inside the root, not dot-named, not locked, and a detector returns a canonical proper-ancestor name (and registration "
+          "is on or the rows exist); it then writes exactly the missing acquisition/file and one copy (M iff a wanted-absent row existed); "
+          "every rejection changes nothing and completes the request except for locked files; idempotent; n workers at statement "
+          "granularity under every schedule end with one acq/file/copy (Y or M), all requests completed, no exception. Tie: real "
+          "update_import/import_file/_import_file on an adversarial tree x request forms x detector behaviours; 2-3 real threads "
+          "preempted at every SQL statement."),
+    note=NOTE_COMMON + " Row uniqueness is the database's unique indexes; file_walk itself is exercised, not modelled.",
+    technique="Lean 4 proof (finite case analysis + small-step invariant for n workers) + differential correspondence incl. statement-level interleaving",
+    ref="§5 C04"),
+ "C17": dict(
+    text=("Lean theorems for check_then_update/check_if_from_stdin: the update pass runs iff no --check and (--force or (list not from stdin "
+          "and confirmed)); transaction model all-or-nothing. Tie (the part no theorem can give): every mutating sub-command (24) with "
+          "random and canonical flag combinations over random indexes through the real click CLI: refusals/check/declined/stdin leave all "
+          "tables unchanged; an OperationalError at every statement index leaves the before- or the after-state."),
+    note=NOTE_COMMON + " click's option parsing; that every write sits behind the decision is established by the enumeration, not by proof.",
+    technique="Lean 4 proof of the decision logic + exhaustive statement-index fault enumeration on the real CLI",
+    ref="§5 C17"),
+ "C18": dict(
+    text=("Lean theorems: node clean (with/without size budget) updates exactly the documented set (budget = shortest id-ordered prefix "
+          "reaching SIZE, copies at the goal counted), node verify / cancel forms select exactly the stated states, sync creates exactly the "
+          "non-skipped non-pending requests; all idempotent; repeated sync adds nothing. Tie: real CLI run twice per case vs model vs a "
+          "specification computed from the help text. Known findings: --days sign (F6), --now --size --target own group (F15)."),
+    note=NOTE_COMMON + " Help text as specification; file-level filters (acq, list, targets, age) computed by the harness from the documentation.",
+    technique="Lean 4 proof (loop = prefix specification, idempotence) + differential correspondence on the real CLI",
+    ref="§5 C18"),
  "C10": dict(
     text=("Lean theorems over an abstract Task/Worker model for every fault plan (DB error in the body or in any subset of clean-ups): "
           "every pending clean-up starts exactly once, task_done exactly once, no global abort, requeue iff requested, worker exits to be "
